@@ -129,12 +129,10 @@ func boot(o *Options, dbs map[string]dbm.DB, walDir string, ownWal bool) (c *Cha
 
 	//create app
 	isTrie := o.IsTrie
-	var appHandle *app.LinkApplication
-	if o.StateCache == 128 {
-		appHandle, err = app.NewLinkApplication(newDB, blockStore, utxoStore, txService, eventBus, isTrie, balanceRecord, noPoceeds, nil)
-	} else {
-		return nil, fmt.Errorf("minichain: StateCache other than 128 is not supported (NewLinkApplication hard-codes it)")
-	}
+	// node.go passes app.SetPoceeds, app.AllocAward (calls into the foundation contract). Here: a no-op proceeds
+	// handler (the fee credit to config.ContractFoundationAddr in processBlock still happens) and no award handler
+	// (processBlock skips the award when the handler is nil; it would also skip it because there are no candidates).
+	appHandle, err := app.NewLinkApplication(newDB, blockStore, utxoStore, txService, eventBus, isTrie, balanceRecord, noPoceeds, nil)
 	if err != nil {
 		return nil, err
 	}
